@@ -354,13 +354,37 @@ FnCellProg ==
     For("e", TFilterE(IterE(V("cs")), WMut(FnII)), Block(<<Asg("+=", V("n"), CallE(Deref(V("e")), <<I(10)>>))>>)),
     For("e", TFilterE(IterE(V("cs")), FnII), Block(<<Asg("+=", V("n"), CallE(V("e"), <<I(100)>>))>>)),
     Deref(V("n"))>>
+\* `it $] ~' collects FIRST (the source is drained, every callback in front of the $] has run) and then enumerates the array;
+\* a user-written iterator whose result type is a union of pairs is collected into an array of the union
+IntSrc3 == Hide(WArr(WInt), ArrE(<<I(1), I(2), I(3)>>))
+LogF(base) == FnE(<<P("x", WInt)>>, WInt, <<LogPlus(base, V("x")), Ret(V("x"))>>)
+PairU == WMulti(<<WTup(<<WBool, WInt>>), WTup(<<WBool, WStr>>)>>)
+OrderProg(k) ==
+  CASE k = "collect-then-iterate" -> <<RedE("$+", "int", MapE(IterE(CollectE(MapE(IterE(IntSrc3), LogF(100)))), LogF(200)))>>
+    [] k = "collect-then-iterate-unused" -> <<Set("it2", MapE(IterE(CollectE(MapE(IterE(IntSrc3), LogF(100)))), LogF(200))), I(5)>>
+    [] k = "collect-then-iterate-source-drained" ->
+         <<Set("src", MapE(IterE(IntSrc3), LogF(100))), Set("it2", IterE(CollectE(V("src")))), Set("left", CollectE(V("src"))),
+           Set("n", MutE(WInt, I(0))), For("e", IterE(V("left")), Block(<<Asg("+=", V("n"), I(1))>>)),
+           Bin("+", Bin("*", Deref(V("n")), I(100)), RedE("$+", "int", V("it2")))>>
+    [] k = "iter-union-of-pairs-collect" ->
+         <<Set("k", MutE(WInt, I(0))),
+           FnDecl("src", <<>>, PairU, <<Asg("+=", V("k"), I(1)),
+                                        If1(Bin("==", Deref(V("k")), I(1)), Block(<<Ret(TupE(<<B(TRUE), I(7)>>))>>)),
+                                        If1(Bin("==", Deref(V("k")), I(2)), Block(<<Ret(TupE(<<B(TRUE), S(<<97>>)>>))>>)),
+                                        Ret(TupE(<<B(FALSE), I(0)>>))>>),
+           Set("r", CollectE(V("src"))), Set("w", IfSet("q", WArr(WMulti(<<WInt, WStr>>)), V("r"), I(100), I(0))),
+           Set("m", MutE(WInt, I(0))), For("e", IterE(V("r")), Block(<<IfSet("y", WInt, V("e"), Block(<<Asg("+=", V("m"), V("y"))>>), Block(<<Asg("+=", V("m"), I(20))>>))>>)),
+           Bin("+", Deref(V("m")), V("w"))>>
 SpecialSeq == << <<"fold-over-void", 206>>, <<"fold-over-void-results", 3>>, <<"collect-void", 6>>, <<"for-over-void", 5>>, <<"filter-void", 1>>,
                  <<"tfilter-empty-array-type", 2>>, <<"tfilter-int-array-type", 3>>, <<"tfilter-any-array-type", 4>>,
                  <<"tfilter-nested-empty-array-type", 3>>,
                  <<"map-over-tuples", 14>>, <<"filter-tuples", 5>>, <<"partition-tuples", 6>>, <<"map-identity-tuples", 104>>,
-                 <<"reduce-tuples", 7>>, <<"call-with-one-tuple", 9>>, <<"tfilter-mut-union", 2>>, <<"tfilter-array-of-mut-union", 1>>, <<"tfilter-mut-function", 112>> >>
+                 <<"reduce-tuples", 7>>, <<"call-with-one-tuple", 9>>, <<"tfilter-mut-union", 2>>, <<"tfilter-array-of-mut-union", 1>>, <<"tfilter-mut-function", 112>>, <<"collect-then-iterate", 6>>, <<"collect-then-iterate-unused", 5>>,
+                 <<"collect-then-iterate-source-drained", 6>>, <<"iter-union-of-pairs-collect", 127>> >>
 TupleKinds == {"map-over-tuples", "filter-tuples", "partition-tuples", "map-identity-tuples", "reduce-tuples", "call-with-one-tuple"}
-SpecialProgOf(k) == IF k \in TupleKinds THEN TupleProg(k) ELSE IF k \in {"tfilter-mut-union", "tfilter-array-of-mut-union"} THEN CellProg(k) ELSE IF k = "tfilter-mut-function" THEN FnCellProg ELSE SpecialProg(k)
+SpecialProgOf(k) == IF k \in TupleKinds THEN TupleProg(k) ELSE IF k \in {"tfilter-mut-union", "tfilter-array-of-mut-union"} THEN CellProg(k) ELSE IF k = "tfilter-mut-function" THEN FnCellProg
+                    ELSE IF k \in {"collect-then-iterate", "collect-then-iterate-unused", "collect-then-iterate-source-drained", "iter-union-of-pairs-collect"} THEN OrderProg(k)
+                    ELSE SpecialProg(k)
 SpecialOut(i) == Outcome(Run(SpecialProgOf(SpecialSeq[i][1]), Fuel))
 SpecialLaw == \A i \in 1..Len(SpecialSeq) :
   \/ (SpecialOut(i).status = "value" /\ SpecialOut(i).v = IntV(SpecialSeq[i][2]))
